@@ -113,3 +113,27 @@ Definition chk_toks (expected observed : list string) : N :=
   if toks_eqb expected observed then 0 else 1.
 
 Close Scope N_scope.
+
+(* ------------------------------------------------------------------ trusted-assumption flows (C32) *)
+Open Scope N_scope.
+Definition c_maxkey (curr new : val) : val := if kf curr <? kf new then new else curr.
+Definition u_max := BReduce c_max (BWeaken (BBatch 0)).
+Definition u_min := BReduce c_min (BWeaken (BBatch 0)).
+Definition u_count := BFold (VN 0) c_count (BWeaken (BBatch 0)).
+Definition u_first := BReduce c_first (BGen VU g_first (BBatch 0)).
+Definition u_last := BReduce c_last (BBatch 0).
+Definition u_value_counts := BFoldKeyed (VN 0) c_count (BWeaken (BBatch 0)).
+Definition u_get_max_key :=
+  BReduce c_maxkey (BReduceKeyed (vn2 (fun a v => (a * 3 + v) mod 1009)) (BBatch 0)).
+(* is_empty = first().is_none(): a longer pipeline, specified directly per batch *)
+Definition u_is_empty_fun (xs : list val) : list val := [VN (match xs with [] => 1 | _ => 0 end)].
+Definition u_is_empty_emit : list string :=
+  ["for_each"; "source_stream"; "scan<'tick>"; "flat_map"; "reduce<'tick>"; "map"; "map"; "map";
+   "chain_first_n"; "source_iter"; "persist<'static>"]%string.
+Close Scope N_scope.
+
+(* generic per-batch function check (actual arrival order vs base input) *)
+Definition chk_fun (F : list val -> list val) (ticks base : list (list (list val)))
+  (impl : list (list val)) : N :=
+  verdict (ticks_agree true impl (map (fun t => F (nth 0 t [])) ticks))
+          (ticks_agree true impl (map (fun t => F (nth 0 t [])) base)).
